@@ -73,11 +73,78 @@ class Stub:
         return f"<{self.name}>"
 
 
+EXC_BASES = {
+    "BaseException": (),
+    "Exception": ("BaseException",),
+    "KeyboardInterrupt": ("BaseException",),
+    "SystemExit": ("BaseException",),
+    "LookupError": ("Exception",),
+    "KeyError": ("LookupError",),
+    "IndexError": ("LookupError",),
+    "ValueError": ("Exception",),
+    "TypeError": ("Exception",),
+    "AttributeError": ("Exception",),
+    "RuntimeError": ("Exception",),
+    "StopIteration": ("Exception",),
+    "ImportError": ("Exception",),
+    "OSError": ("Exception",),
+    "ArithmeticError": ("Exception",),
+    "ZeroDivisionError": ("ArithmeticError",),
+    "PicklingError": ("Exception",),
+    "Empty": ("Exception",),
+    "NotImplementedError": ("RuntimeError",),
+}
+
+
+def exc_ancestors(name: str) -> set:
+    out, todo = set(), [name]
+    while todo:
+        n = todo.pop()
+        if n in out:
+            continue
+        out.add(n)
+        todo.extend(EXC_BASES.get(n, ("Exception",) if n not in ("BaseException",) else ()))
+    return out
+
+
+class ExcClass:
+    """An exception class of the abstract domain (identified by name; hierarchy in EXC_BASES)."""
+
+    _all: dict = {}
+
+    def __new__(cls, name):
+        if name not in cls._all:
+            o = super().__new__(cls)
+            o.name = name
+            cls._all[name] = o
+        return cls._all[name]
+
+    def __deepcopy__(self, memo):
+        return self
+
+    def __repr__(self):
+        return f"<exception class {self.name}>"
+
+
+class ExcObj:
+    def __init__(self, cls: ExcClass, args=(), cause=None):
+        self.cls = cls
+        self.args = tuple(args)
+        self.cause = cause
+
+    def __deepcopy__(self, memo):
+        return self
+
+    def __repr__(self):
+        return f"{self.cls.name}()"
+
+
 class PyRaise(Exception):
-    def __init__(self, exc_name: str, node=None):
+    def __init__(self, exc_name: str, node=None, exc: ExcObj | None = None):
         super().__init__(exc_name)
         self.exc_name = exc_name
         self.node = node
+        self.exc = exc or ExcObj(ExcClass(exc_name))
 
 
 class _Return(Exception):
@@ -114,12 +181,74 @@ class ClassObj:
         return self
 
 
-    def __init__(self, name: str, attrs: dict):
+    def __init__(self, name: str, attrs: dict, bases=()):
         self.name = name
-        self.attrs = attrs
+        self.own = attrs
+        self.bases = tuple(b for b in bases if isinstance(b, ClassObj))
+        # linearised attribute table (single inheritance chains are all that is in scope)
+        self.attrs = {}
+        for b in reversed(self.bases):
+            self.attrs.update(b.attrs)
+        self.attrs.update(attrs)
+
+    def mro(self):
+        out = [self]
+        for b in self.bases:
+            for c in b.mro():
+                if c not in out:
+                    out.append(c)
+        return out
 
     def __repr__(self):
         return f"<class {self.name}>"
+
+
+class NamedTupleClass:
+    def __init__(self, name, fields, defaults):
+        self.name, self.fields, self.defaults = name, list(fields), dict(defaults)
+
+    def __deepcopy__(self, memo):
+        return self
+
+    def make(self, args, kwargs):
+        vals = dict(self.defaults)
+        for f, a in zip(self.fields, args):
+            vals[f] = a
+        for k, v in kwargs.items():
+            if k not in self.fields:
+                raise PyRaise("TypeError")
+            vals[k] = v
+        if set(vals) != set(self.fields):
+            raise PyRaise("TypeError")
+        return NamedTupleObj(self, tuple(vals[f] for f in self.fields))
+
+
+class NamedTupleObj(tuple):
+    def __new__(cls, ntc, vals):
+        o = super().__new__(cls, vals)
+        o.ntc = ntc
+        return o
+
+    def __deepcopy__(self, memo):
+        import copy as _copy
+
+        return NamedTupleObj(self.ntc, tuple(_copy.deepcopy(v, memo) for v in self))
+
+
+class HObj:
+    """A harness object: behaviour supplied by the analysis (stubs for collaborators outside the analysed module).
+    `methods` maps a name to a Python callable(*args, **kwargs); `attrs` are plain attributes; `iter_hook()`
+    yields the elements the object iterates over."""
+
+    def __init__(self, name, attrs=None, methods=None, iter_hook=None, settable=True):
+        self.name = name
+        self.attrs = dict(attrs or {})
+        self.methods = dict(methods or {})
+        self.iter_hook = iter_hook
+        self.settable = settable
+
+    def __repr__(self):
+        return self.name
 
 
 class Instance:
@@ -152,8 +281,9 @@ class BoundMethod:
 
 
 class SuperProxy:
-    def __init__(self, inst):
+    def __init__(self, inst, start=None):
         self.inst = inst
+        self.start = start
 
 
 class Env:
@@ -182,7 +312,7 @@ EXC_PARENTS = {
     "StopIteration": ("StopIteration", "Exception", "BaseException"),
 }
 
-TYPE_NAMES = {"Counter": Counter, "tuple": tuple, "list": list, "dict": dict, "set": set, "str": str, "int": int, "bool": bool, "frozenset": frozenset}
+TYPE_NAMES = {"Counter": Counter, "float": float, "slice": slice, "tuple": tuple, "list": list, "dict": dict, "set": set, "str": str, "int": int, "bool": bool, "frozenset": frozenset}
 
 SAFE_METHODS = {
     dict: {"get", "items", "keys", "values", "update", "setdefault", "pop", "copy", "clear", "__contains__", "__setitem__", "__getitem__"},
@@ -214,6 +344,10 @@ class Interp:
             return self.call(fn.fn, [fn.inst, *args], kwargs)
         if isinstance(fn, ClassObj):
             return self.instantiate(fn, args, kwargs)
+        if isinstance(fn, NamedTupleClass):
+            return fn.make(list(args), kwargs)
+        if isinstance(fn, ExcClass):
+            return ExcObj(fn, args)
         if callable(fn) and getattr(fn, "_absexec_builtin", False):
             return fn(*args, **kwargs)
         raise Unsupported(f"call of {fn!r}")
@@ -250,6 +384,28 @@ class Interp:
             raise Unsupported(f"unexpected keyword arguments {sorted(kwargs)}")
         if isinstance(node, ast.Lambda):
             return self.ev(node.body, env)
+        if getattr(fn, "defining_class", None):
+            stack = self.__dict__.setdefault("_defining", [None])
+            stack.append(fn.defining_class)
+            try:
+                return self._run_body(fn, node, env)
+            finally:
+                stack.pop()
+        return self._run_body(fn, node, env)
+
+    def _run_body(self, fn, node, env):
+        if getattr(fn, "is_generator", None) is None:
+            fn.is_generator = any(isinstance(n, (ast.Yield, ast.YieldFrom)) for n in _walk_own(node))
+        if fn.is_generator:
+            # evaluated eagerly: sound for generators without side effects between the yields that the
+            # consumer could observe (the ones in scope only build values)
+            out = []
+            env.set("__yield__", out)
+            try:
+                self.run(node.body, env)
+            except _Return:
+                pass
+            return iter(out)
         try:
             self.run(node.body, env)
         except _Return as r:
@@ -268,8 +424,20 @@ class Interp:
         if isinstance(o, Instance):
             if "__setattr__" in o.cls.attrs:
                 self.call(o.cls.attrs["__setattr__"], [o, name, v])
+            elif f"__set_{name}" in o.cls.attrs:
+                self.call(o.cls.attrs[f"__set_{name}"], [o, v])
+            elif isinstance(o.cls.attrs.get(name), Closure) and getattr(o.cls.attrs[name], "is_property", False):
+                raise PyRaise("AttributeError")
             else:
                 o.dict[name] = v
+        elif isinstance(o, HObj):
+            if not o.settable:
+                raise PyRaise("AttributeError")
+            hook = o.methods.get(f"__set_{name}")
+            if hook is not None:
+                hook(v)
+            else:
+                o.attrs[name] = v
         elif isinstance(o, Obj):
             o._attrs[name] = v
         else:
@@ -297,12 +465,35 @@ class Interp:
                 self.assign(st.target, self.ev(st.value, env), env)
         elif isinstance(st, ast.AugAssign):
             cur = self.ev(_as_load(st.target), env)
-            new = self.binop(st.op, cur, self.ev(st.value, env))
+            val = self.ev(st.value, env)
+            # in-place operators of the mutable built-in containers mutate the object (aliases observe the change)
+            if isinstance(cur, list) and isinstance(st.op, ast.Add):
+                cur.extend(self.iterate(val))
+                new = cur
+            elif isinstance(cur, list) and isinstance(st.op, ast.Mult) and isinstance(val, int):
+                cur[:] = cur * val
+                new = cur
+            elif isinstance(cur, set) and isinstance(st.op, ast.BitOr) and isinstance(val, (set, frozenset)):
+                cur.update(val)
+                new = cur
+            elif isinstance(cur, set) and isinstance(st.op, ast.Sub) and isinstance(val, (set, frozenset)):
+                cur.difference_update(val)
+                new = cur
+            elif isinstance(cur, set) and isinstance(st.op, ast.BitAnd) and isinstance(val, (set, frozenset)):
+                cur.intersection_update(val)
+                new = cur
+            elif isinstance(cur, dict) and isinstance(st.op, ast.BitOr) and isinstance(val, dict):
+                cur.update(val)
+                new = cur
+            else:
+                new = self.binop(st.op, cur, val)
             self.assign(st.target, new, env)
         elif isinstance(st, ast.If):
             self.run(st.body if self.truth(self.ev(st.test, env)) else st.orelse, env)
         elif isinstance(st, ast.For):
-            it = self.iterate(self.ev(st.iter, env))
+            src = self.ev(st.iter, env)
+            # harness objects iterate lazily (what they do between two elements happens between two loop bodies)
+            it = src.iter_hook() if isinstance(src, HObj) and src.iter_hook is not None else self.iterate(src)
             broke = False
             for x in it:
                 self.assign(st.target, x, env)
@@ -339,12 +530,32 @@ class Interp:
             env.set(st.name, Closure(st, env, self))
         elif isinstance(st, ast.ClassDef):
             cenv = Env(env)
+            bases = []
+            base_names = []
+            for b in st.bases:
+                base_names.append(b.id if isinstance(b, ast.Name) else getattr(b, "attr", "?"))
+                try:
+                    bases.append(self.ev(b, env))
+                except Unsupported:
+                    bases.append(None)
+            if any(isinstance(b, ExcClass) for b in bases) or any(n in EXC_BASES for n in base_names):
+                EXC_BASES[st.name] = tuple(n for n in base_names if n in EXC_BASES or isinstance(ExcClass._all.get(n), ExcClass)) or ("Exception",)
+                env.set(st.name, ExcClass(st.name))
+                return
+            if "NamedTuple" in base_names:
+                fields = [(x.target.id, x.value) for x in st.body if isinstance(x, ast.AnnAssign) and isinstance(x.target, ast.Name)]
+                env.set(st.name, NamedTupleClass(st.name, [f for f, _ in fields], {f: self.ev(d, env) for f, d in fields if d is not None}))
+                return
             for x in st.body:
                 if isinstance(x, ast.FunctionDef):
                     fn = Closure(x, env, self)
                     fn.defining_class = st.name
                     if any(isinstance(d, ast.Name) and d.id == "property" for d in x.decorator_list):
                         fn.is_property = True
+                    setter = next((d for d in x.decorator_list if isinstance(d, ast.Attribute) and d.attr == "setter"), None)
+                    if setter is not None:
+                        cenv.set(f"__set_{x.name}", fn)
+                        continue
                     cenv.set(x.name, fn)
                 elif isinstance(x, ast.Expr) and isinstance(x.value, ast.Constant):
                     continue
@@ -355,12 +566,28 @@ class Interp:
                         continue
                 else:
                     raise Unsupported(f"class body statement {type(x).__name__}")
-            env.set(st.name, ClassObj(st.name, cenv.vars))
+            env.set(st.name, ClassObj(st.name, cenv.vars, bases))
         elif isinstance(st, ast.Raise):
-            name = "Exception"
-            if st.exc is not None:
-                f = st.exc.func if isinstance(st.exc, ast.Call) else st.exc
-                name = f.id if isinstance(f, ast.Name) else (f.attr if isinstance(f, ast.Attribute) else "Exception")
+            if st.exc is None:
+                cur = getattr(self, "_handling", None)
+                if cur is None:
+                    raise Unsupported("bare raise outside a handler")
+                raise PyRaise(cur.exc_name, st, cur.exc)
+            f = st.exc.func if isinstance(st.exc, ast.Call) else st.exc
+            name = f.id if isinstance(f, ast.Name) else (f.attr if isinstance(f, ast.Attribute) else "Exception")
+            try:
+                v = self.ev(st.exc, env)
+            except Unsupported:
+                v = None
+            if isinstance(v, ExcClass):
+                v = ExcObj(v)
+            if isinstance(v, ExcObj):
+                if st.cause is not None:
+                    try:
+                        v.cause = self.ev(st.cause, env)
+                    except Unsupported:
+                        pass
+                raise PyRaise(v.cls.name, st, v)
             raise PyRaise(name, st)
         elif isinstance(st, ast.Try):
             try:
@@ -375,10 +602,15 @@ class Interp:
                             names = [x.id if isinstance(x, ast.Name) else getattr(x, "attr", "?") for x in h.type.elts]
                         else:
                             names = [h.type.id if isinstance(h.type, ast.Name) else getattr(h.type, "attr", "?")]
-                        if any(nm in EXC_PARENTS.get(e.exc_name, (e.exc_name, "Exception", "BaseException")) for nm in names):
+                        if any(nm in exc_ancestors(e.exc_name) for nm in names):
                             if h.name:
-                                env.set(h.name, Token(f"<{e.exc_name}>"))
-                            self.run(h.body, env)
+                                env.set(h.name, e.exc)
+                            prev = getattr(self, "_handling", None)
+                            self._handling = e
+                            try:
+                                self.run(h.body, env)
+                            finally:
+                                self._handling = prev
                             break
                     else:
                         raise
@@ -387,7 +619,7 @@ class Interp:
             finally:
                 self.run(st.finalbody, env)
         elif isinstance(st, ast.With):
-            raise Unsupported("with statement")
+            self._with(st, 0, env)
         elif isinstance(st, (ast.Import, ast.ImportFrom, ast.Global, ast.Nonlocal)):
             if isinstance(st, ast.Nonlocal):
                 raise Unsupported("nonlocal")
@@ -407,6 +639,27 @@ class Interp:
                     raise Unsupported("del of non-subscript")
         else:
             raise Unsupported(f"statement {type(st).__name__}")
+
+    def _with(self, st, i, env):
+        if i == len(st.items):
+            self.run(st.body, env)
+            return
+        item = st.items[i]
+        mgr = self.ev(item.context_expr, env)
+        entered = self.call(self.getattr(mgr, "__enter__"), [])
+        if item.optional_vars is not None:
+            self.assign(item.optional_vars, entered, env)
+        try:
+            self._with(st, i + 1, env)
+        except PyRaise as e:
+            swallow = self.call(self.getattr(mgr, "__exit__"), [e.exc.cls, e.exc, None])
+            if not self.truth(swallow):
+                raise
+            return
+        except (_Return, _Break, _Continue):
+            self.call(self.getattr(mgr, "__exit__"), [None, None, None])
+            raise
+        self.call(self.getattr(mgr, "__exit__"), [None, None, None])
 
     def assign(self, t, v, env):
         if isinstance(t, ast.Name):
@@ -432,6 +685,14 @@ class Interp:
         elif isinstance(t, ast.Subscript):
             c = self.ev(t.value, env)
             k = self.ev(t.slice, env)
+            if isinstance(c, Instance) and "__setitem__" in c.cls.attrs:
+                self.call(c.cls.attrs["__setitem__"], [c, k, v])
+                return
+            if isinstance(c, HObj) and "__setitem__" in c.methods:
+                c.methods["__setitem__"](k, v)
+                return
+            if isinstance(k, slice):
+                raise Unsupported("slice store into a built-in container")
             if not isinstance(c, (dict, list)):
                 raise Unsupported(f"subscript store into {type(c).__name__}")
             try:
@@ -445,13 +706,19 @@ class Interp:
 
     # ------------------------------------------------------------------ expressions
     def truth(self, v):
-        if isinstance(v, (Token, Obj, Stub, Closure, Instance, ClassObj, BoundMethod)):
+        if isinstance(v, (Token, Obj, Stub, Closure, Instance, ClassObj, BoundMethod, HObj, ExcObj, ExcClass, NamedTupleClass)):
             return True
+        if isinstance(v, float):
+            return bool(v)
         if isinstance(v, (bool, int, str, tuple, list, dict, set, frozenset, type(None))):
             return bool(v)
         raise Unsupported(f"truth value of {type(v).__name__}")
 
     def iterate(self, v):
+        if isinstance(v, HObj) and v.iter_hook is not None:
+            return list(v.iter_hook())
+        if isinstance(v, NamedTupleObj):
+            return list(v)
         if isinstance(v, (tuple, list, dict, set, frozenset, range, str)):
             return list(v)
         if isinstance(v, (zip, enumerate, map, filter, itertools.zip_longest, itertools.chain, reversed)) or hasattr(v, "__next__"):
@@ -461,6 +728,33 @@ class Interp:
         raise PyRaise("TypeError") if isinstance(v, (Token, type(None), int)) else Unsupported(f"iteration over {type(v).__name__}")
 
     def binop(self, op, a, b):
+        dunder = {ast.Add: "add", ast.Sub: "sub", ast.Mult: "mul", ast.Div: "truediv", ast.FloorDiv: "floordiv", ast.Mod: "mod", ast.MatMult: "matmul"}.get(type(op))
+        if dunder and isinstance(a, Instance) and f"__{dunder}__" in a.cls.attrs:
+            return self.call(a.cls.attrs[f"__{dunder}__"], [a, b])
+        if dunder and isinstance(b, Instance) and f"__r{dunder}__" in b.cls.attrs:
+            return self.call(b.cls.attrs[f"__r{dunder}__"], [b, a])
+        if isinstance(op, ast.BitOr) and all(isinstance(x, (type, ClassObj, ExcClass, NamedTupleClass, tuple)) for x in (a, b)):
+            # `A | B` of classes: a union type, used as the second argument of isinstance
+            return (a if isinstance(a, tuple) else (a,)) + (b if isinstance(b, tuple) else (b,))
+        num = (int, float)
+        if isinstance(a, num) and isinstance(b, num) and not isinstance(a, bool) and not isinstance(b, bool):
+            try:
+                if isinstance(op, ast.Add):
+                    return a + b
+                if isinstance(op, ast.Sub):
+                    return a - b
+                if isinstance(op, ast.Mult):
+                    return a * b
+                if isinstance(op, ast.Div):
+                    return a / b
+                if isinstance(op, ast.FloorDiv):
+                    return a // b
+                if isinstance(op, ast.Mod):
+                    return a % b
+                if isinstance(op, ast.Pow):
+                    return a**b
+            except ZeroDivisionError:
+                raise PyRaise("ZeroDivisionError") from None
         try:
             if isinstance(op, ast.Add):
                 if isinstance(a, (int, list, tuple, str)) and type(a) is type(b) or (isinstance(a, int) and isinstance(b, int)):
@@ -491,10 +785,12 @@ class Interp:
             try:
                 return env.lookup(e.id)
             except Unsupported:
-                if e.id in BUILTINS:
-                    return BUILTINS[e.id]
                 if e.id in TYPE_NAMES:
                     return TYPE_NAMES[e.id]
+                if e.id in BUILTINS:
+                    return BUILTINS[e.id]
+                if e.id in EXC_BASES:
+                    return ExcClass(e.id)
                 raise
         if isinstance(e, ast.NamedExpr):
             v = self.ev(e.value, env)
@@ -517,20 +813,31 @@ class Interp:
         if isinstance(e, ast.JoinedStr):
             out = ""
             for p in e.values:
-                out += str(self.ev(p.value, env)) if isinstance(p, ast.FormattedValue) else str(p.value)
+                if isinstance(p, ast.FormattedValue):
+                    pv = self.ev(p.value, env)
+                    out += self.call(pv.cls.attrs["__str__"], [pv]) if isinstance(pv, Instance) and "__str__" in pv.cls.attrs else str(pv)
+                else:
+                    out += str(p.value)
             return out
         if isinstance(e, ast.Attribute):
             o = self.ev(e.value, env)
             return self.getattr(o, e.attr)
+        if isinstance(e, ast.Slice):
+            lo = self.ev(e.lower, env) if e.lower is not None else None
+            hi = self.ev(e.upper, env) if e.upper is not None else None
+            stp = self.ev(e.step, env) if e.step is not None else None
+            return slice(lo, hi, stp)
         if isinstance(e, ast.Subscript):
             c = self.ev(e.value, env)
+            if isinstance(c, Instance) and "__getitem__" in c.cls.attrs:
+                return self.call(c.cls.attrs["__getitem__"], [c, self.ev(e.slice, env)])
+            if isinstance(c, HObj) and "__getitem__" in c.methods:
+                return c.methods["__getitem__"](self.ev(e.slice, env))
             if isinstance(e.slice, ast.Slice):
-                lo = self.ev(e.slice.lower, env) if e.slice.lower is not None else None
-                hi = self.ev(e.slice.upper, env) if e.slice.upper is not None else None
-                stp = self.ev(e.slice.step, env) if e.slice.step is not None else None
+                sl = self.ev(e.slice, env)
                 if not isinstance(c, (list, tuple, str)):
                     raise Unsupported("slice of non-sequence")
-                return c[lo:hi:stp]
+                return c[sl]
             k = self.ev(e.slice, env)
             if isinstance(c, (dict,)):
                 try:
@@ -553,7 +860,7 @@ class Interp:
             v = self.ev(e.operand, env)
             if isinstance(e.op, ast.Not):
                 return not self.truth(v)
-            if isinstance(e.op, ast.USub) and isinstance(v, int):
+            if isinstance(e.op, ast.USub) and isinstance(v, (int, float)):
                 return -v
             raise Unsupported("unary operator")
         if isinstance(e, ast.BoolOp):
@@ -592,6 +899,12 @@ class Interp:
             return dict(out)
         if isinstance(e, ast.Lambda):
             return Closure(e, env, self)
+        if isinstance(e, ast.Yield):
+            env.lookup("__yield__").append(self.ev(e.value, env) if e.value is not None else None)
+            return None
+        if isinstance(e, ast.YieldFrom):
+            env.lookup("__yield__").extend(self.iterate(self.ev(e.value, env)))
+            return None
         if isinstance(e, ast.Starred):
             raise Unsupported("starred expression")
         raise Unsupported(f"expression {type(e).__name__}")
@@ -628,9 +941,9 @@ class Interp:
         if isinstance(op, ast.NotIn):
             return not self._contains(b, a)
         if isinstance(op, (ast.Eq, ast.NotEq)):
-            r = (a is b) if isinstance(a, (Token, Obj, Stub, Instance, ClassObj)) or isinstance(b, (Token, Obj, Stub, Instance, ClassObj)) else a == b
+            r = (a is b) if isinstance(a, (Token, Obj, Stub, Instance, ClassObj, HObj, ExcObj, ExcClass)) or isinstance(b, (Token, Obj, Stub, Instance, ClassObj, HObj, ExcObj, ExcClass)) else a == b
             return r if isinstance(op, ast.Eq) else not r
-        if isinstance(a, (int, str, tuple, list)) and type(a) is type(b) and not isinstance(a, bool) or (isinstance(a, int) and isinstance(b, int)):
+        if isinstance(a, (int, str, tuple, list)) and type(a) is type(b) and not isinstance(a, bool) or (isinstance(a, (int, float)) and isinstance(b, (int, float))):
             try:
                 return {ast.Lt: a < b, ast.LtE: a <= b, ast.Gt: a > b, ast.GtE: a >= b}[type(op)]
             except TypeError:
@@ -673,8 +986,40 @@ class Interp:
             if name in o.attrs:
                 return o.attrs[name]
             raise PyRaise("AttributeError")
+        if isinstance(o, HObj):
+            if name in o.attrs:
+                return o.attrs[name]
+            if name in o.methods:
+                return _bound(o.methods[name])
+            raise PyRaise("AttributeError")
+        if isinstance(o, NamedTupleObj):
+            if name in o.ntc.fields:
+                return o[o.ntc.fields.index(name)]
+            if name == "_asdict":
+                return _bound(lambda: dict(zip(o.ntc.fields, o)))
+            if name == "_replace":
+                return _bound(lambda **kw: o.ntc.make([], {**dict(zip(o.ntc.fields, o)), **kw}))
+            raise PyRaise("AttributeError")
+        if isinstance(o, ExcObj):
+            if name == "args":
+                return o.args
+            if name == "__cause__":
+                return o.cause
+            if name == "__class__":
+                return o.cls
+            raise PyRaise("AttributeError")
+        if isinstance(o, ExcClass):
+            if name in ("__name__", "__qualname__"):
+                return o.name
+            raise PyRaise("AttributeError")
         if isinstance(o, SuperProxy):
             inst = o.inst
+            base_attrs = {}
+            for c in o.start.mro()[1:] if getattr(o, "start", None) is not None else []:
+                for k, v in c.own.items():
+                    base_attrs.setdefault(k, v)
+            if name in base_attrs and isinstance(base_attrs[name], Closure):
+                return BoundMethod(base_attrs[name], inst)
             if name == "__setattr__":
                 return _bound(lambda nm, v: inst.dict.__setitem__(nm, v))
             if name == "__getattribute__":
@@ -704,12 +1049,30 @@ class Interp:
             if name in ("__name__", "__qualname__"):
                 return o.node.name
             raise Unsupported(f"attribute {name} of closure")
+        if isinstance(o, list) and name == "sort":
+            def _sort(key=None, reverse=False):
+                o[:] = self._sorted(o, key, reverse)
+
+            return _bound(_sort)
+        if isinstance(o, list) and name == "reverse":
+            return _bound(o.reverse)
         for tp, names in SAFE_METHODS.items():
             if type(o) is tp and name in names:
                 return _bound(getattr(o, name))
         if isinstance(o, type) and o is dict and name == "fromkeys":
             return _bound(dict.fromkeys)
         raise Unsupported(f"attribute {name} of {type(o).__name__}")
+
+    def _sorted(self, xs, key=None, reverse=False):
+        xs = list(xs)
+        ks = [self.call(key, [x]) if key is not None else x for x in xs]
+        if not all(isinstance(k, (int, float, str)) or (isinstance(k, tuple) and all(isinstance(y, (int, float, str)) for y in k)) for k in ks):
+            raise Unsupported("sorting by abstract values")
+        try:
+            order = sorted(range(len(xs)), key=lambda i: ks[i], reverse=reverse)
+        except TypeError:
+            raise PyRaise("TypeError") from None
+        return [xs[i] for i in order]
 
     def getattr_raw(self, inst, name):
         if name in inst.dict:
@@ -729,9 +1092,43 @@ class Interp:
                     ee = ee.parent
                 if ee is None:
                     raise Unsupported("super() outside a method") from None
-                return SuperProxy(ee.vars["self"])
+                inst = ee.vars["self"]
+                start = None
+                if isinstance(inst, Instance):
+                    # the class whose method is executing: the closest enclosing closure with a defining class
+                    dc = getattr(self, "_defining", [None])[-1]
+                    start = next((c for c in inst.cls.mro() if c.name == dc), inst.cls)
+                return SuperProxy(inst, start)
         fn = self.ev(e.func, env)
         args = self._elts(e.args, env)
+        if fn is BUILTINS.get("sorted") and args:
+            kw = {k.arg: self.ev(k.value, env) for k in e.keywords if k.arg}
+            return self._sorted(self.iterate(args[0]), kw.get("key"), bool(kw.get("reverse", False)))
+        if fn is BUILTINS.get("len") and len(args) == 1:
+            if isinstance(args[0], Instance) and "__len__" in args[0].cls.attrs:
+                return self.call(args[0].cls.attrs["__len__"], [args[0]])
+            if isinstance(args[0], HObj) and "__len__" in args[0].methods:
+                return args[0].methods["__len__"]()
+        if fn is BUILTINS.get("hasattr") and len(args) == 2:
+            try:
+                self.getattr(args[0], args[1])
+                return True
+            except PyRaise as exc:
+                if exc.exc_name == "AttributeError":
+                    return False
+                raise
+            except Unsupported:
+                return False
+        if fn is BUILTINS.get("getattr") and len(args) in (2, 3):
+            try:
+                return self.getattr(args[0], args[1])
+            except PyRaise as exc:
+                if exc.exc_name == "AttributeError" and len(args) == 3:
+                    return args[2]
+                raise
+        if fn is BUILTINS.get("setattr") and len(args) == 3:
+            self.set_attribute(args[0], args[1], args[2])
+            return None
         kwargs = {}
         for k in e.keywords:
             if k.arg is None:
@@ -755,9 +1152,15 @@ class Interp:
                     return Counter(args[0])
                 raise Unsupported("Counter of an abstract value")
             if fn is str and args:
+                if isinstance(args[0], Instance) and "__str__" in args[0].cls.attrs:
+                    return self.call(args[0].cls.attrs["__str__"], [args[0]])
                 return str(args[0])
             if fn is bool and args:
                 return self.truth(args[0])
+            if fn is int:
+                return BUILTINS["int"](*args)
+            if fn is float:
+                return BUILTINS["float"](*args)
             if not args:
                 return fn()
             raise Unsupported(f"constructor {fn.__name__}")
@@ -773,6 +1176,17 @@ class Interp:
             raise PyRaise("ValueError", e) from None
         except TypeError as exc:
             raise Unsupported(f"call failed in the abstract domain: {exc}") from None
+
+
+def _walk_own(fn_node):
+    """Nodes of a function body without nested function / class bodies."""
+    stack = list(fn_node.body)
+    while stack:
+        n = stack.pop()
+        yield n
+        for c in ast.iter_child_nodes(n):
+            if not isinstance(c, (ast.FunctionDef, ast.AsyncFunctionDef, ast.Lambda, ast.ClassDef)):
+                stack.append(c)
 
 
 def _bound(f):
@@ -794,8 +1208,11 @@ def _as_load(t):
 
 
 def _builtin(f):
-    f._absexec_builtin = True
-    return f
+    try:
+        f._absexec_builtin = True
+        return f
+    except AttributeError:  # bound methods do not take attributes
+        return _bound(f)
 
 
 def _mk_builtins():
@@ -810,15 +1227,23 @@ def _mk_builtins():
     @_builtin
     def _isinstance(x, tp):
         tps = tp if isinstance(tp, tuple) else (tp,)
-        if any(isinstance(t, ClassObj) for t in tps):
-            if isinstance(x, Instance) and any(t is x.cls for t in tps):
+        flat = []
+        for t in tps:
+            flat.extend(t if isinstance(t, tuple) else (t,))
+        tps = tuple(flat)
+        if any(isinstance(t, (ClassObj, ExcClass, NamedTupleClass)) for t in tps):
+            if isinstance(x, Instance) and any(isinstance(t, ClassObj) and t in x.cls.mro() for t in tps):
                 return True
-            tps = tuple(t for t in tps if not isinstance(t, ClassObj))
+            if isinstance(x, ExcObj) and any(isinstance(t, ExcClass) and t.name in exc_ancestors(x.cls.name) for t in tps):
+                return True
+            if isinstance(x, NamedTupleObj) and any(t is x.ntc for t in tps):
+                return True
+            tps = tuple(t for t in tps if not isinstance(t, (ClassObj, ExcClass, NamedTupleClass)))
             if not tps:
                 return False
         if not all(isinstance(t, type) for t in tps):
             raise Unsupported("isinstance against an abstract type")
-        return isinstance(x, tps) and not isinstance(x, (Token, Obj, Stub, Closure, Instance))
+        return isinstance(x, tps) and not isinstance(x, (Token, Obj, Stub, Closure, Instance, HObj, ExcObj))
 
     @_builtin
     def _zip(*its, strict=False):
@@ -963,7 +1388,52 @@ def _mk_builtins():
     def _setattr(o, name, v):
         raise Unsupported("setattr()")
 
-    b.update(callable=_callable, copy_copy=_copy)
+    b.update(callable=_callable, copy_copy=_copy, setattr=_setattr)
+
+    @_builtin
+    def _int(x=0):
+        if isinstance(x, (int, float, str)):
+            return int(x)
+        raise Unsupported("int() of an abstract value")
+
+    @_builtin
+    def _float(x=0.0):
+        if isinstance(x, (int, float, str)):
+            return float(x)
+        raise Unsupported("float() of an abstract value")
+
+    @_builtin
+    def _abs(x):
+        if isinstance(x, (int, float)):
+            return abs(x)
+        raise Unsupported("abs() of an abstract value")
+
+    @_builtin
+    def _round(x, n=None):
+        if isinstance(x, (int, float)):
+            return round(x, n) if n is not None else round(x)
+        raise Unsupported("round() of an abstract value")
+
+    @_builtin
+    def _sum(it, start=0):
+        xs = _iter(it)
+        if not all(isinstance(x, (int, float)) for x in xs):
+            raise Unsupported("sum of abstract values")
+        return sum(xs, start)
+
+    @_builtin
+    def _print(*a, **k):
+        return None
+
+    @_builtin
+    def _nullcontext(x=None):
+        return HObj("nullcontext", methods={"__enter__": lambda: x, "__exit__": lambda *a: False})
+
+    @_builtin
+    def _repr(x):
+        return repr(x)
+
+    b.update(int=_int, float=_float, abs=_abs, round=_round, sum=_sum, print=_print, nullcontext=_nullcontext, repr=_repr)
 
     @_builtin
     def _islice(it, *a):
